@@ -186,6 +186,7 @@ func cmdOne(args []string) {
 	solver := fs.String("solver", defaultSolver(), "solver binary")
 	slog := fs.String("smtlog", "", "log smt to file")
 	maxp := fs.Int("maxpaths", 0, "")
+	conc := fs.String("concrete", "", "replay json: run the harness in concrete mode with this model")
 	fs.Parse(args)
 	ld, err := Load(*tags)
 	if err != nil {
@@ -204,7 +205,22 @@ func cmdOne(args []string) {
 		sol.log = f
 	}
 	kf := loadKnownFindings()
-	res := runInstance(ld, sol, Instance{Harness: *harness, Cfg: cfg, Ring: *ring, Name: *harness}, runOpts{trace: *trace, maxPaths: *maxp, kfOpen: kf.openSet()})
+	ro := runOpts{trace: *trace, maxPaths: *maxp, kfOpen: kf.openSet()}
+	if *conc != "" {
+		b, err := os.ReadFile(*conc)
+		if err != nil {
+			fmt.Fprintln(os.Stderr, err)
+			os.Exit(2)
+		}
+		var rf struct {
+			Harness string                 `json:"harness"`
+			Cfg     map[string]interface{} `json:"cfg"`
+			Model   map[string]string      `json:"model"`
+		}
+		json.Unmarshal(b, &rf)
+		*harness, cfg, ro.concrete = rf.Harness, rf.Cfg, rf.Model
+	}
+	res := runInstance(ld, sol, Instance{Harness: *harness, Cfg: cfg, Ring: *ring, Name: *harness}, ro)
 	fmt.Printf("paths=%d dropped=%d steps=%d queries=%d (trivial %d) solver=%.2fs funcs=%d\n", res.Paths, res.Dropped, res.Steps, res.Queries, res.Trivial, res.SolverS, len(res.Funcs))
 	for k, v := range res.Aborted {
 		fmt.Printf("ABORTED x%d: %s\n", v, k)
